@@ -348,7 +348,7 @@ def replay(f):
         exp = np.broadcast_to(b, (H, W)) + n * np.broadcast_to(e, (H, W))
         bad = not np.allclose(thr, exp, rtol=1e-9, atol=1e-12)
         return bad, f'thr={thr.tolist()} exp={exp.tolist()}'
-    if key in ('input-modified', 'unexpected-raise', 'threshold-shape'):
+    if key in ('unexpected-raise', 'threshold-shape'):
         return False, 'replay of this key needs the symbolic run'
     H, W = p['shape']
     d = arr_from_witness(w, 'd', (H, W))
@@ -356,6 +356,8 @@ def replay(f):
         w, 't', (H, W))
     mask = None if p['mask'] == 'none' else mask_from_witness(w, 'm', (H, W))
     npix = int(w['npixels'])
+    d0 = d.copy()
+    m0 = None if mask is None else mask.copy()
     with warnings.catch_warnings(record=True) as wl:
         warnings.simplefilter('always')
         if p.get('entry') == 'finder':
@@ -365,6 +367,10 @@ def replay(f):
             segm = detect_sources(d, t, npix, connectivity=p['conn'],
                                   mask=mask)
     warned = any(issubclass(x.category, NoDetectionsWarning) for x in wl)
+    if key == 'input-modified':
+        bad = not np.array_equal(d, d0, equal_nan=True) or (
+            mask is not None and not np.array_equal(mask, m0))
+        return bad, f'input modified: {bad}'
     with np.errstate(invalid='ignore'):
         S = (d > t) & ~np.isnan(d)
     if mask is not None:
